@@ -191,7 +191,8 @@ fn chk_encoders(g: &mut Gen) -> Result<(), String> {
         15 => { let u = g.bytes(16); let h = g.u8(); let mut b = vec![0x80, 0x10]; b.extend_from_slice(&u); b.push(h);
                 expect = Some((0, b)); let ua: [u8; 16] = u.clone().try_into().unwrap(); { fit(&mut buf, &expect, exact); quiet(|| rq.resolve_uuid(dst, &ua, h, &mut buf)) } }
         16 => { expect = Some((0, vec![0x80, 0x11])); { fit(&mut buf, &expect, exact); quiet(|| rq.query_rate_limit(dst, &mut buf)) } }
-        17 | 18 => { let fmt = if g.below(5) == 0 { g.u8() } else { g.u8() & 1 }; let data = u32::from_be_bytes([g.u8(), g.u8(), g.u8(), g.u8()]);
+        17 | 18 => { let fmt = if g.below(5) == 0 { g.u8() } else { g.u8() & 1 };
+                let data = match g.below(8) { 0 => 0xFFFF, 1 => 0xFFFF_FFFF, 2 => 0x0001_0000 | g.u8() as u32, 3 => 0, 4 => 0x0000_FF00 | g.u8() as u32, _ => u32::from_be_bytes([g.u8(), g.u8(), g.u8(), g.u8()]) };
                 let n = match g.below(8) { 0 | 1 => 240 + g.below(30), 2 => 250 + g.below(600), _ => g.below(40) }; let msg = g.bytes(n);
                 let f = VendorIDFormat { format: fmt, data, numeric_value: g.u8() as u16 };
                 expect = match fmt { 0 => { let mut b = vec![(data >> 8) as u8, data as u8]; b.extend_from_slice(&msg); Some((0x7E, b)) }
@@ -555,7 +556,21 @@ fn chk_views(g: &mut Gen) -> Result<(), String> {
     if pci.vendor_id() != u16::from_be_bytes([raw[0], raw[1]]) { return Err("PCI vendor id getter".into()); }
     let iana = IANAMessageFormat(raw);
     if iana.vendor_id() != u32::from_be_bytes(raw) { return Err("IANA vendor id getter".into()); }
-    // C19
+    // C19: every defined code point maps to the variant DSP0236 names for it (independent table, by variant)
+    {
+        use CommandCode::*;
+        let table = [(0x00u8, Reserved), (0x01, SetEndpointID), (0x02, GetEndpointID), (0x03, GetEndpointUUID), (0x04, GetMCTPVersionSupport),
+            (0x05, GetMessageTypeSupport), (0x06, GetVendorDefinedMessageSupport), (0x07, ResolveEndpointID), (0x08, AllocateEndpointIDs),
+            (0x09, RoutingInformationUpdate), (0x0A, GetRoutingTableEntries), (0x0B, PrepareForEndpointDiscovery), (0x0C, EndpointDiscovery),
+            (0x0D, DiscoveryNotify), (0x0E, GetNetworkID), (0x0F, QueryHop), (0x10, ResolveUUID), (0x11, QueryRateLimit), (0x12, RequestTXRateLimit),
+            (0x13, UpdateRateLimit), (0x14, QuerySupportedInterfaces), (0xFF, Unknown)];
+        let (code, want) = table[g.below(table.len())];
+        if CommandCode::from(code) != want || want as u8 != code { return Err(format!("CommandCode code point {:#x} maps to {:?}", code, CommandCode::from(code))); }
+        let mts = [(0x00u8, MessageType::MCtpControl), (0x05, MessageType::SpdmOverMctp), (0x06, MessageType::SecuredMessages), (0x7E, MessageType::VendorDefinedPCI), (0x7F, MessageType::VendorDefinedIANA)];
+        for (c, w) in mts { if MessageType::from(c) != w { return Err(format!("MessageType code point {:#x}", c)); } }
+        let ccs = [(0u8, CompletionCode::Success), (1, CompletionCode::Error), (2, CompletionCode::ErrorInvalidData), (3, CompletionCode::ErrorInvalidLength), (4, CompletionCode::ErrorNotReady), (5, CompletionCode::ErrorUnsupportedCmd)];
+        for (c, w) in ccs { if CompletionCode::from(c) != w { return Err(format!("CompletionCode code point {}", c)); } }
+    }
     let n = g.u8();
     if CommandCode::from(n) as u8 != (if n <= 0x14 { n } else { 0xFF }) { return Err(format!("CommandCode::from({:#x})", n)); }
     if MessageType::from(n) as u8 != mt_of(n) { return Err(format!("MessageType::from({:#x})", n)); }
